@@ -230,6 +230,12 @@ class Server:
         self.argv_extra = list(argv_extra or [])
         with open(os.path.join(self.dir, "vapp.py"), "w") as f:
             f.write(app_source or APP_SOURCE)
+        # workers may drop privileges: everything they append to must stay writable for them
+        os.chmod(self.dir, 0o777)
+        for name in ("events.log", "phases.log"):
+            pth = os.path.join(self.dir, name)
+            open(pth, "a").close()
+            os.chmod(pth, 0o666)
         self.write_conf()
 
     def write_conf(self, **override):
